@@ -26,12 +26,13 @@ let methods = [
   (n_of_int 10, { m_cmd = BOUND; m_locok = false });
 ]
 
-let parse_header (t : string list) : config option =
+let rec parse_header (t : string list) : config option =
   match t with
   | ["H"; mn; mx; wm; fb; ums; uc; rr; cfgnil] ->
       if cfgnil <> "0" then None
       else Some { c_min = ioz mn; c_max = ioz mx; c_wm = ioz wm; c_fallback = (fb <> "0");
                   c_ums = ioz ums; c_ucalls = ioz uc; c_rr = (rr = "1"); c_methods = methods }
+  | ["H"; mn; mx; wm; fb; ums; uc; rr; cfgnil; _cursor] -> parse_header ["H"; mn; mx; wm; fb; ums; uc; rr; cfgnil]
   | _ -> raise (Bad "header")
 
 let parse_op (t : string list) : op =
@@ -186,7 +187,7 @@ let class_name = function
 
 let monitor_table : (string * (config option -> obs -> event list -> bool)) list = [
   ("c01", c01_ok); ("c02", c02_ok); ("c03", (fun raw o0 tr -> c03_ok raw o0 tr && c03S_ok raw o0 tr)); ("c04", c04_ok); ("c05", c05_ok);
-  ("c06", c06_ok); ("c07", c07_ok); ("c08", c08_ok); ("c09", (fun raw o0 tr -> c09_ok raw o0 tr && c09D_ok raw o0 tr)); ("c20", c20_ok) ]
+  ("c06", c06_ok); ("c07", c07_ok); ("c08", c08_ok); ("c09", (fun raw o0 tr -> c09_ok raw o0 tr && c09D_ok raw o0 tr && c09W_ok raw o0 tr)); ("c20", c20_ok) ]
 
 let first_fail (ok : event list -> bool) (evs : event list) : int =
   let n = List.length evs in
@@ -253,8 +254,9 @@ let () =
       match h.h_obs with
       | None -> Some (0, "ended")
       | Some o0 ->
-          if observe init_bal <> o0 then Some (0, "construct")
-          else match accept h.h_raw init_bal (S O) h.h_events with
+          let s0 = set_rr init_bal o0.o_rr in    (* the cursor may be injected by the header, see harness *)
+          if observe s0 <> o0 then Some (0, "construct")
+          else match accept h.h_raw s0 (S O) h.h_events with
                | None -> None
                | Some (idx, c) -> Some (int_of_nat idx, class_name c) in
     let mons =
@@ -266,8 +268,8 @@ let () =
             let idx = if ok then -1 else first_fail (fun evs -> f h.h_raw o0 evs) h.h_events in
             Printf.sprintf "m:%s %d %d" name (if ok then 1 else 0) idx) monitor_table in
     let flags = match h.h_obs with
-      | Some o0 -> Printf.sprintf " f:k_RES %d f:k_RR2 %d" (if known_RES h.h_raw o0 h.h_events then 1 else 0)
-                     (if known_RR2 h.h_raw o0 h.h_events then 1 else 0)
+      | Some o0 -> Printf.sprintf " f:k_RES %d f:k_RR2 %d f:k_RR1 %d" (if known_RES h.h_raw o0 h.h_events then 1 else 0)
+                     (if known_RR2 h.h_raw o0 h.h_events then 1 else 0) (if known_RR1 h.h_raw o0 h.h_events then 1 else 0)
       | None -> "" in
     Printf.printf "hist %d line %d nev %d acc %s %s%s\n" i h.h_line nev
       (match acc with None -> "ok" | Some (k, c) -> Printf.sprintf "div %d %s" k c)
@@ -282,7 +284,7 @@ let () =
   | None -> ()
   | Some oc ->
       output_string oc "From GV Require Import Pool.Model Pool.Observe Pool.Monitors.\nOpen Scope Z_scope.\n";
-      output_string oc "Definition case_ok (raw : option config) (o0 : obs) (tr : list event) (acc : bool) (vs : list bool) : bool :=\n  Bool.eqb (match accept raw init_bal 1%nat tr with None => true | Some _ => false end) acc &&\n  list_eqb Bool.eqb (map (fun pid => monitor pid raw o0 tr) [P01; P02] ++ [monitor P03 raw o0 tr && C03S_ok raw o0 tr] ++ map (fun pid => monitor pid raw o0 tr) [P04; P05; P06; P07; P08] ++ [monitor P09 raw o0 tr && C09D_ok raw o0 tr; monitor P20 raw o0 tr]) vs.\n";
+      output_string oc "Definition case_ok (raw : option config) (o0 : obs) (tr : list event) (acc : bool) (vs : list bool) : bool :=\n  Bool.eqb (match accept raw (set_rr init_bal (o_rr o0)) 1%nat tr with None => true | Some _ => false end) acc &&\n  list_eqb Bool.eqb (map (fun pid => monitor pid raw o0 tr) [P01; P02] ++ [monitor P03 raw o0 tr && C03S_ok raw o0 tr] ++ map (fun pid => monitor pid raw o0 tr) [P04; P05; P06; P07; P08] ++ [monitor P09 raw o0 tr && C09D_ok raw o0 tr && C09W_ok raw o0 tr; monitor P20 raw o0 tr]) vs.\n";
       List.iteri (fun i (h, o0, acc, vs) ->
         Printf.fprintf oc "Definition case_%d : bool := case_ok %s %s %s %s %s.\n" i
           (copt cconfig h.h_raw) (cobs o0) (clist cev h.h_events) (cbool acc) (clist cbool vs)) (List.rev !coq_cases);
